@@ -1814,6 +1814,9 @@ def _handle_match_stage(in_collection, database, options):
 
 
 def _handle_limit_stage(in_collection, unused_database, options):
+    if isinstance(options, float) and options.is_integer():
+        # a double that holds a whole number is an integer for the server
+        options = int(options)
     if isinstance(options, bool) or not isinstance(options, int):
         raise OperationFailure(
             'invalid argument to $limit stage: Expected an integer: $limit: %r' % (options,))
@@ -1823,6 +1826,9 @@ def _handle_limit_stage(in_collection, unused_database, options):
 
 
 def _handle_skip_stage(in_collection, unused_database, options):
+    if isinstance(options, float) and options.is_integer():
+        # a double that holds a whole number is an integer for the server
+        options = int(options)
     if isinstance(options, bool) or not isinstance(options, int):
         raise OperationFailure(
             'invalid argument to $skip stage: Expected an integer: $skip: %r' % (options,))
